@@ -221,10 +221,11 @@ impl Slots {
         (gen, discard)
     }
 
-    pub(super) fn help<R, T>(&self, who: &Self, storage_addr: usize, replacement: &R)
+    pub(super) fn help<R, T, M>(&self, who: &Self, storage_addr: usize, replacement: &R, current: &M)
     where
         T: RefCnt,
         R: Fn() -> T,
+        M: Fn() -> &'static Self,
     {
         debug_assert_eq!(IDLE, self.control.load(Relaxed));
         // Also acquires the auxiliary data in other variables.
@@ -280,12 +281,17 @@ impl Slots {
                     // idle and the load doesn't re-enter write, so that's all fine.
                     let replacement = replacement();
                     let replace_addr = T::as_ptr(&replacement) as usize;
+                    // The replacement is a full load on this very thread. If it was the load that
+                    // wrapped the generation around, our node got retired in the meantime (and may
+                    // belong to someone else by now) and the thread continues with another one.
+                    // The envelope we offer must come from the node we own *now*.
+                    let me = current();
                     // If we succeed in helping the other thread, we take their empty space in
                     // return for us that we pass to them. It's already there, the value is synced
                     // to us by Acquire on control.
                     let their_space = who.space_offer.load(SeqCst);
                     // Relaxed is fine, our own thread and nobody but us writes in here.
-                    let my_space = self.space_offer.load(SeqCst);
+                    let my_space = me.space_offer.load(SeqCst);
                     // Relaxed is fine, we'll sync by the next compare-exchange. If we don't, the
                     // value won't ever be read anyway.
                     unsafe {
@@ -307,7 +313,7 @@ impl Slots {
                             verif_rt::probe(verif_rt::probes::HELP_SUCCEEDED, false);
                             // We have successfully sent our replacement out (Release) and got
                             // their space in return (Acquire on that load above).
-                            self.space_offer.store(their_space, SeqCst);
+                            me.space_offer.store(their_space, SeqCst);
                             // The ref count went with it, so forget about it here.
                             T::into_ptr(replacement);
                             // We have successfully helped out, so we are done.
